@@ -9,7 +9,7 @@ from sa.db import AnalysisError, FunctionInfo, dotted, mangle, norm_stmt, own_no
 from sa.flow import Interp, call_of
 
 CLAIM = {
-    "text": "Decides progress of every user-space send loop for every sign pattern of (chunk lengths, bytes accepted) by a finite abstract interpretation of the real loop bodies over the sign domain {0,+} (deque of buffers = list of signs up to length 3, resolved helpers such as adjust_leftover_buffer inlined, send primitives stubbed): from every abstract pre-state that satisfies the loop condition each iteration either leaves the loop or makes progress on the well-founded measure (an element removed, an element replaced by a strict suffix of itself, the sent-counter grown by a positive amount); decides the byte accounting (the loop advances by the count returned by the send primitive of the same iteration, the next offered slice starts at the accumulated count, negative counts raise) and the single hand-off of the producer's generator to exactly one transport call. Also decided: (wait) the selector wait of the retry wrapper is min(remaining budget, retry interval) and the unbounded select() is confined to the arm where that wait is infinite, and the time budget is threaded freshly through the blocking send path (typestate of C11); (tls) the async TLS writer flushes under the send lock only and every send entry point hands the whole plaintext backlog to the SSL object before it returns (rules of C08). (drain) every transport write of the asyncio adapter is followed by the awaited drain (rule of C20). Round 4: every chunk of an iterable handed to a send_all_from_iterable-style function is consumed - no truthiness test on `next(it, default)`, no truncating adaptor. Round 5: the end-of-stream latch of the endpoints is stored only after the transport's send_eof() completed; writer_drain() of the asyncio protocols awaits drain() on every path; send_all() and send_all_from_iterable() of one transport refuse under the same condition.",
+    "text": "Decides progress of every user-space send loop for every sign pattern of (chunk lengths, bytes accepted) by a finite abstract interpretation of the real loop bodies over the sign domain {0,+} (deque of buffers = list of signs up to length 3, resolved helpers such as adjust_leftover_buffer inlined, send primitives stubbed): from every abstract pre-state that satisfies the loop condition each iteration either leaves the loop or makes progress on the well-founded measure (an element removed, an element replaced by a strict suffix of itself, the sent-counter grown by a positive amount); decides the byte accounting (the loop advances by the count returned by the send primitive of the same iteration, the next offered slice starts at the accumulated count, negative counts raise) and the single hand-off of the producer's generator to exactly one transport call. Also decided: (wait) the selector wait of the retry wrapper is min(remaining budget, retry interval) and the unbounded select() is confined to the arm where that wait is infinite, and the time budget is threaded freshly through the blocking send path (typestate of C11); (tls) the async TLS writer flushes under the send lock only and every send entry point hands the whole plaintext backlog to the SSL object before it returns (rules of C08). (drain) every transport write of the asyncio adapter is followed by the awaited drain (rule of C20). Round 4: every chunk of an iterable handed to a send_all_from_iterable-style function is consumed - no truthiness test on `next(it, default)`, no truncating adaptor. Round 5: the end-of-stream latch of the endpoints is stored only after the transport's send_eof() completed; writer_drain() of the asyncio protocols awaits drain() on every path; send_all() and send_all_from_iterable() of one transport refuse under the same condition. Round 6: no loop on the way from the protocol to the wire pulls chunks with next(it, default) and stops on a falsy element (an empty chunk is not the end of the packet).",
     "note": "Assumptions (stated): a non-blocking send never returns 0 for a non-empty buffer (it raises EAGAIN, which the retry wrapper turns into a bounded wait - C11) and returns 0 for an all-empty offer; SC_IOV_MAX is at least the abstract list bound. Not decided: wall-clock termination, kernel behaviour, byte-for-byte equality on the wire.",
     "technique": "finite abstract interpretation of the loop bodies over the sign domain with a small relational refinement (strict-suffix facts from the branch conditions), def-use checks for the accounting, cardinality-on-paths for the hand-off",
 }
